@@ -14,7 +14,7 @@ import (
 func TestC07(t *testing.T) {
 	p := defaultProfile()
 	p.MinBlocks, p.MaxBlocks = 8, 30
-	p.Alt, p.PAlt = govHeavyProfile(), 35
+	p.Alt, p.PAlt = govHeavyProfile(), 45
 	p.W["deployp"], p.W["callp"] = 4, 10
 	p.PowerTies = true
 	p.Alt.PowerTies = true
